@@ -134,6 +134,34 @@ theorem accepted_limit_within_ancestor_limits (h : validate ps = .ok ps') (g : B
     · rw [hna] at h3; cases h3
     · exact h3 a ha' x hx vx hvx
 
+/-- The skip-level reading of the clause above, spelled out: `a` is ANY ancestor of the queue — `near` are the levels between
+    the queue and `a`, `far` the levels above `a`, both arbitrary (any number of levels, with or without entries for the name,
+    naming whatever resource types they like).  A limit of an accepted configuration does not exceed, in any resource type,
+    an entry of the same user (`g = false`) or group (`g = true`) on `a`: a level in between that names other types does not
+    hide the types of `a`. -/
+theorem accepted_limit_within_skip_level_limits (h : validate ps = .ok ps') (g : Bool) : ∀ p ∈ ps', ∀ e ∈ queuesOf p,
+    ∀ l ∈ e.2.d.limits, ∀ n ∈ namesOf g l, ∀ (near far : List QD) (a : QD), e.1 = near ++ a :: far →
+      ∀ x ∈ limitsFor g a n, ∀ t lv xv, qty l.maxRes t = some lv → qty x.maxRes t = some xv → lv ≤ xv := by
+  intro p hp e he l hl n hn near far a hsplit x hx t lv xv h1 h2
+  refine (accepted_limit_within_ancestor_limits h g p hp e he l hl n hn).1 a ?_ x hx t lv xv h1 h2
+  rw [hsplit]; simp
+
+/-- Why: the limit the model validator hands down to the children for a name with an inherited entry (`resDom.comb`, the
+    mirror of `resources.ComponentWiseMin(limitMaxResources, existingMax)` in checkLimitResource) is, per resource type, the
+    smaller value where the entry of the queue and the inherited limit both name the type, and the value of the one that
+    names it otherwise: the types that only the ancestors name are handed down unchanged. -/
+theorem limit_handed_down_is_componentwise_min {m mx : Option SMap} {lim ex : Yk.Res}
+    (hl : parseConf m = .ok lim) (hx : parseConf mx = .ok ex) (t : String) :
+    (resDom.comb lim ex).get? t =
+      (match lim.get? t, ex.get? t with
+       | some a, some b => some (min a b)
+       | some a, none => some a
+       | none, some b => some b
+       | none, none => none) ∧
+    (lim.get? t = none → (resDom.comb lim ex).get? t = ex.get? t) :=
+  ⟨resDom_comb_get? lim ex (parseConf_wf hl) (parseConf_wf hx) t,
+   resDom_comb_keeps_inherited_types lim ex (parseConf_wf hl) (parseConf_wf hx) t⟩
+
 /-- The same for the application counts: where an ancestor's entry sets a count, the limit sets one too, not a larger one. -/
 theorem accepted_limit_within_ancestor_applications (h : validate ps = .ok ps') (g : Bool) : ∀ p ∈ ps', ∀ e ∈ queuesOf p,
     ∀ l ∈ e.2.d.limits, ∀ n ∈ namesOf g l,
@@ -325,6 +353,58 @@ set_option maxRecDepth 100000 in
 example : acceptedAnd good (fun ps' => decide (loadNewAll ps' = .ok ()) && decide (loadRunningAll ["default"] ps' = .ok ()) &&
     !someRuleUnresolved ps' && ps'.all okSingleRoot &&
     (clauseList true ++ strictList).all (fun c => !someQueueViolates c.2 ps')) = true := by decide
+
+/-! limit ladders: the same user / group / wildcard on three and four levels that name different resource types -/
+
+def glim (groups : List String) (res : Option SMap) (apps : Nat) : Limit :=
+  { label := "l", users := none, groups := some groups, maxRes := res, maxApps := apps }
+
+/-- root → parent → leaf, one limit entry each -/
+def ladder3 (top mid leaf : Limit) : List Part :=
+  [part (.mk { qd "root" with parent := true, submitACL := "*", limits := [top] }
+    [.mk { qd "parent" with parent := true, limits := [mid] } [.mk { qd "leaf" with limits := [leaf] } []]])]
+
+/-- root → a → b → leaf -/
+def ladder4 (top a b leaf : Limit) : List Part :=
+  [part (.mk { qd "root" with parent := true, submitACL := "*", limits := [top] }
+    [.mk { qd "a" with parent := true, limits := [a] }
+      [.mk { qd "b" with parent := true, limits := [b] } [.mk { qd "leaf" with limits := [leaf] } []]]])]
+
+def allClauses (ps' : List Part) : Bool := (clauseList true).all (fun c => !someQueueViolates c.2 ps')
+
+/-- group dev: memory 100 on root, vcore 5 on root.parent, memory 500 on root.parent.leaf is REJECTED (500 > 100 two levels
+    up, through a level that does not name memory); with memory 100 (or 99 and the vcore of the parent) on the leaf, or
+    when no level above names memory, it is accepted and satisfies every clause. -/
+example : rejectedWith (ladder3 (glim ["dev"] (some [("memory", "100")]) 0) (glim ["dev"] (some [("vcore", "5")]) 0)
+    (glim ["dev"] (some [("memory", "500")]) 0)) .glimResGtParent = true := by decide
+set_option maxRecDepth 100000 in
+example : acceptedAnd (ladder3 (glim ["dev"] (some [("memory", "100")]) 0) (glim ["dev"] (some [("vcore", "5")]) 0)
+    (glim ["dev"] (some [("memory", "100")]) 0)) allClauses = true := by decide
+set_option maxRecDepth 100000 in
+example : acceptedAnd (ladder3 (glim ["dev"] (some [("memory", "100")]) 0) (glim ["dev"] (some [("vcore", "5")]) 0)
+    (glim ["dev"] (some [("memory", "99"), ("vcore", "5000m")]) 0)) allClauses = true := by decide
+set_option maxRecDepth 100000 in
+example : acceptedAnd (ladder3 (glim ["dev"] (some [("vcore", "8")]) 0) (glim ["dev"] (some [("vcore", "5")]) 0)
+    (glim ["dev"] (some [("memory", "500")]) 0)) allClauses = true := by decide
+/-- the same shape for a named user, the user wildcard, the group wildcard (next to a named group), and a named user that
+    meets only wildcard entries above -/
+example : rejectedWith (ladder3 (lim ["alice"] (some [("memory", "100")]) 0) (lim ["alice"] (some [("vcore", "5")]) 0)
+    (lim ["alice"] (some [("memory", "500")]) 0)) .ulimResGtParent = true := by decide
+example : rejectedWith (ladder3 (lim ["*"] (some [("memory", "100")]) 0) (lim ["*"] (some [("vcore", "5")]) 0)
+    (lim ["*"] (some [("memory", "500")]) 0)) .ulimResGtParent = true := by decide
+example : rejectedWith (ladder3 (glim ["ops", "*"] (some [("memory", "100")]) 0) (glim ["ops", "*"] (some [("vcore", "5")]) 0)
+    (glim ["ops", "*"] (some [("memory", "500")]) 0)) .glimResGtParent = true := by decide
+example : rejectedWith (ladder3 (lim ["*"] (some [("memory", "100")]) 0) (lim ["*"] (some [("vcore", "5")]) 0)
+    (lim ["alice"] (some [("memory", "500")]) 0)) .ulimResGtWildcard = true := by decide
+/-- four levels: two levels in between name other types (vcore; a third type) -/
+example : rejectedWith (ladder4 (glim ["dev"] (some [("memory", "1Gi")]) 0) (glim ["dev"] (some [("vcore", "5")]) 0)
+    (glim ["dev"] (some [("nvidia.com/gpu", "2")]) 0) (glim ["dev"] (some [("memory", "2Gi")]) 0)) .glimResGtParent = true := by decide
+example : rejectedWith (ladder4 (lim ["alice"] (some [("memory", "1Gi")]) 0) (lim ["alice"] (some [("vcore", "5")]) 0)
+    (lim ["alice"] (some [("memory", "512Mi")]) 0) (lim ["alice"] (some [("vcore", "6")]) 0)) .ulimResGtParent = true := by decide
+set_option maxRecDepth 100000 in
+example : acceptedAnd (ladder4 (glim ["dev"] (some [("memory", "1Gi"), ("vcore", "8")]) 0) (glim ["dev"] (some [("vcore", "5")]) 0)
+    (glim ["dev"] (some [("nvidia.com/gpu", "2"), ("memory", "512Mi")]) 0)
+    (glim ["dev"] (some [("memory", "512Mi"), ("vcore", "5000m"), ("nvidia.com/gpu", "2")]) 0)) allClauses = true := by decide
 
 /-- the hypotheses of `validate_independent_of_map_order` are satisfiable: the maps of `good` have unique keys, and `good`
     with every map reversed is accepted like `good` -/
